@@ -319,6 +319,16 @@ func (f *frame) localAt(name string, env *Env) (TV, bool) {
 				if v, isVar := o.(*types.Var); !isVar || v.IsField() {
 					continue
 				}
+				// a parameter's own object: the name keeps denoting the entry value
+				isParam := false
+				for _, p := range f.fn.Params {
+					if p.Object() == o {
+						isParam = true
+					}
+				}
+				if isParam {
+					continue
+				}
 				if d.IsAddr {
 					if pt, isP := d.X.Type().Underlying().(*types.Pointer); !isP || !types.Identical(o.Type(), pt.Elem()) {
 						continue
